@@ -503,6 +503,8 @@ type c04Template struct {
 	entry  string
 	w      []byte
 	fields []model.Field
+	suite  bridge.SuiteSel
+	keys   *bridge.KeySet // entry "unprotect": receiver keys (receiver = responder, header not pre-parsed / pre-parsed both tried)
 }
 
 func c04Templates() []c04Template {
@@ -547,15 +549,15 @@ func c04Templates() []c04Template {
 		if err != nil {
 			panic(err)
 		}
-		out = append(out, c04Template{"body:" + p.Kind, w, e.Fields})
+		out = append(out, c04Template{entry: "body:" + p.Kind, w: w, fields: e.Fields})
 	}
 	for _, ep := range eaps {
 		w, f, err := ref.EncodeEAPLayout(ep, nil)
 		if err != nil {
 			panic(err)
 		}
-		out = append(out, c04Template{"eap", w, f})
-		out = append(out, c04Template{"body:EAP", w, f})
+		out = append(out, c04Template{entry: "eap", w: w, fields: f})
+		out = append(out, c04Template{entry: "body:EAP", w: w, fields: f})
 		if ep.Kind != model.ENone {
 			var f2 []model.Field
 			for _, x := range f {
@@ -564,7 +566,7 @@ func c04Templates() []c04Template {
 					f2 = append(f2, x)
 				}
 			}
-			out = append(out, c04Template{"eapmethod:" + ep.Kind, w[4:], f2})
+			out = append(out, c04Template{entry: "eapmethod:" + ep.Kind, w: w[4:], fields: f2})
 		}
 	}
 	// whole messages: all payloads in one datagram, and two small ones
@@ -575,11 +577,25 @@ func c04Templates() []c04Template {
 		if err != nil {
 			panic(err)
 		}
-		out = append(out, c04Template{"message", w, e.Fields})
-		out = append(out, c04Template{"header", w, e.Fields})
+		out = append(out, c04Template{entry: "message", w: w, fields: e.Fields})
+		out = append(out, c04Template{entry: "header", w: w, fields: e.Fields})
 		e2 := &ref.Enc{}
 		first, cw, _ := ref.EncodeChain(ps, e2)
-		out = append(out, c04Template{fmt.Sprintf("payloads:%d", first), cw, e2.Fields})
+		out = append(out, c04Template{entry: fmt.Sprintf("payloads:%d", first), w: cw, fields: e2.Fields})
+	}
+	// protected messages (reference-built) offered to the unprotect path, one per integrity algorithm
+	for ii := 0; ii < 3; ii++ {
+		suite := bridge.SuiteSel{Encr: ii, Integ: ii}
+		keys := fuzzKeysFor(suite)
+		first, inner, _ := ref.EncodeChain([]model.Payload{payloads[7], payloads[8]}, nil)
+		pl := 15 - len(inner)%16
+		w, err := ref.Protect(suite.Ref(), keys.Dir(true), ref.Header28(1, 2, 2, 0, 35, 8, 1), first, inner, bytes.Repeat([]byte{9}, 16), pl, make([]byte, pl), 0)
+		if err != nil {
+			panic(err)
+		}
+		fields := []model.Field{{Off: 16, Width: 1, Kind: ref.FHdrNext}, {Off: 24, Width: 4, Kind: ref.FHdrLen}, {Off: 28, Width: 1, Kind: ref.FPayNext},
+			{Off: 30, Width: 2, Kind: ref.FPayLen}}
+		out = append(out, c04Template{entry: "unprotect", w: w, fields: fields, suite: suite, keys: keys})
 	}
 	return out
 }
@@ -623,6 +639,9 @@ func c04SizeValues(width int, cur uint64, thorough bool) []uint64 {
 
 func c04RunSweep(c *probe.Ctx, shard, shards int) {
 	sizeLike := func(k string) bool {
+		if k == ref.FHdrNext || k == ref.FPayNext {
+			return true
+		}
 		return strings.HasSuffix(k, ".len") || strings.HasSuffix(k, "size") || strings.HasSuffix(k, "count") || strings.HasSuffix(k, "ntrans") ||
 			strings.HasSuffix(k, "attrlen") || strings.HasSuffix(k, ".bits") || k == ref.FAttrType || k == ref.FTSType || k == ref.FEAPType || k == ref.FAkaAttrType
 	}
@@ -636,7 +655,7 @@ func c04RunSweep(c *probe.Ctx, shard, shards int) {
 		}
 		// every prefix of the template (truncation at every position)
 		for l := 0; l <= len(tp.w); l++ {
-			if !c04Sweep.Eval(c, c04In{Entry: tp.entry, B: tp.w[:l], Origin: "prefix"}) && c.Failures() > 12 {
+			if !c04Sweep.Eval(c, c04In{Entry: tp.entry, B: tp.w[:l], Origin: "prefix", Suite: tp.suite, Keys: tp.keys, WithHeader: l%2 == 1 && l >= 28}) && c.Failures() > 12 {
 				return
 			}
 		}
@@ -674,14 +693,14 @@ func c04RunSweep(c *probe.Ctx, shard, shards int) {
 					}
 				}
 				for l := range lens {
-					if !c04Sweep.Eval(c, c04In{Entry: tp.entry, B: mw[:l], Origin: "sweep:" + f.Kind}) && c.Failures() > 12 {
+					if !c04Sweep.Eval(c, c04In{Entry: tp.entry, B: mw[:l], Origin: "sweep:" + f.Kind, Suite: tp.suite, Keys: tp.keys, WithHeader: l%2 == 1 && l >= 28}) && c.Failures() > 12 {
 						return
 					}
 				}
 				// the same value with the buffer extended (room for the announced extent)
 				if int(v) > 0 && int(v) < 70000 {
 					ext := append(append([]byte(nil), mw...), bytes.Repeat([]byte{0x5c}, minInt(int(v)+8, 66000))...)
-					if !c04Sweep.Eval(c, c04In{Entry: tp.entry, B: ext, Origin: "sweep-extended:" + f.Kind}) && c.Failures() > 12 {
+					if !c04Sweep.Eval(c, c04In{Entry: tp.entry, B: ext, Origin: "sweep-extended:" + f.Kind, Suite: tp.suite, Keys: tp.keys}) && c.Failures() > 12 {
 						return
 					}
 				}
